@@ -9,14 +9,20 @@ for d in sorted(glob.glob('/tmp/seeded_out/C*')):
         log = open(v).read()
         if 'RESULT confirmed' not in log:
             print('not confirmed', pid, k); continue
-        out = f'/verif/seeded/{pid}-{k}'
+        # second-round seeds (directory R2Cxx) are numbered on from the first round
+        if pid.startswith('R2'):
+            key = f'{pid[2:]}-{int(k)+2}'
+            prop = pid[2:]
+        else:
+            key = f'{pid}-{k}'
+            prop = pid
+        out = f'/verif/seeded/{key}'
         os.makedirs(out, exist_ok=True)
         shutil.copy(f'{d}/change_{k}.diff', f'{out}/patch.diff')
         shutil.copy(f'{d}/demo_{k}.diff', f'{out}/demo.diff')
         notes = open(f'{d}/notes_{k}.md').read() if os.path.exists(f'{d}/notes_{k}.md') else ''
         open(f'{out}/notes.md','w').write(notes)
-        key = f'{pid}-{k}'
-        meta = dict(property=pid, seed=key,
+        meta = dict(property=prop, seed=key,
             origin='fresh sub-agent given only the property record and a scratch worktree',
             needs_to_manifest=(DET.get(key, {}).get('needs') or notes[:600]),
             confirmed_by='tools/seedcheck.sh in a scratch worktree of /repo HEAD: demo passes without the change, fails with it, full nextest suite (921 tests) passes with the change alone',
